@@ -65,7 +65,7 @@ def _java_cmd():
 
 def main():
     wd = workdir('tjv-selftest-')
-    exe = build_driver(wd, 'prod', extra='-DTJD_WRAP_GETRANDOM', wraps=('getrandom',))
+    exe = build_driver(wd, 'prod', extra='-DTJD_WRAP_GETRANDOM', wraps=('getrandom', 'getentropy', 'syscall'))
     K = '000102030405060708090a0b0c0d0e0f'
     N = '0a0b0c0d0e0f101112131415'
     # ---------------- TV_Cipher
